@@ -600,4 +600,91 @@ deriving DecidableEq, Repr, Inhabited
 def apiRun (E : Env) (p : Path) (b : Exit) (args : List GoVal) : Res Run :=
   (apiCall E p args).map fun (t, vs) => ⟨[t], exitOf b (isNewPath p) 1 t vs⟩
 
+/-! ### re-entrant use of the API from a Go host function while a script is running
+
+  `caller` is a JavaScript function that shadows the name used in `source` (by a var, a parameter, a catch
+  binding or a with object) and calls a Go host function, which uses the API on the same runtime.
+  Otto.Call and Otto.Run push a fresh GLOBAL scope (otto.go:545 `o.runtime.enterGlobalScope()`, unconditional;
+  runtime.go cmplRunOrEval for Run), Otto.Eval keeps the current scope when there is one (otto.go:306), whose
+  lexical environment chains to the caller's; Otto.Get reads the global stash; Object.Call reads a property. -/
+
+inductive Shadow | none | var | param | catch | with
+deriving DecidableEq, Repr, Inhabited
+
+inductive Reentry
+  | ottoCall        -- call.Otto.Call(src, nil, a)
+  | ottoCallThis    -- call.Otto.Call(src, this, a)
+  | ottoRun         -- call.Otto.Run(src + "(a)")
+  | ottoEval        -- call.Otto.Eval(src + "(a)")
+  | valueCall       -- v, _ := call.Otto.Get(name); v.Call(undefined, a)
+  | objectCall      -- o, _ := call.Otto.Object("holder"); o.Call(name, a)
+deriving DecidableEq, Repr, Inhabited
+
+/-- which binding of the name the source resolves to -/
+inductive Binding | global | local
+deriving DecidableEq, Repr, Inhabited
+
+def scopeIsGlobal : Reentry → Bool
+  | .ottoEval => false        -- "without leaving the current scope (if there is one)"
+  | _ => true
+
+def reentryResolves (r : Reentry) (s : Shadow) : Binding :=
+  if scopeIsGlobal r then .global
+  else match s with
+    | .none => .global
+    | _ => .local
+
+/-! ### Go-API edge cases (finite): what the entry points do with hostile or degenerate input -/
+
+inductive ApiCase
+  | runThrowToStringThrows      -- vm.Run("throw {toString:function(){throw 1}}")
+  | runThrowUnconvertible       -- vm.Run("throw {toString:function(){return {}},valueOf:function(){return {}}}")
+  | badIsNaN | badToString | badToInteger | badToFloat | badToBoolean | badString | badClass
+                                -- the method on an object whose valueOf and toString throw RangeError
+  | callerLocationNoScript      -- FunctionCall.CallerLocation() in a host function invoked by Value.Call, no script running
+  | callerLocationScript        -- the same from `host()` in a script
+  | setNilObject                -- vm.Set("x", prim.Object())  (a nil *Object)
+  | toValueNilObject            -- vm.ToValue((*Object)(nil))
+  | argNilObject                -- fn.Call(undefined, (*Object)(nil))
+  | toValueNilValue             -- vm.ToValue((*Value)(nil))
+  | marshalFunction             -- Value.MarshalJSON of a function
+  | marshalObjectWithFunction   -- of {a:function(){},b:1}
+  | marshalUndefined
+  | callTwoStatements           -- vm.Call("f(); g", nil, 7)
+  | callTwoStatementsThis       -- vm.Call("f(); g", 1, 7)
+  | callExprStatement           -- vm.Call("g //", nil, 7)
+deriving DecidableEq, Repr, Inhabited
+
+inductive ApiOut
+  | goPanic
+  | errPlain                    -- a non-nil error that is not an *otto.Error
+  | errClass (cls : String)     -- *otto.Error of that class
+  | text (s : String)           -- the result (rendered)
+deriving DecidableEq, Repr, Inhabited
+
+/-- the unchanged code (error.go catchPanic, value.go IsNaN/toValue/MarshalJSON, type_function.go
+    CallerLocation, otto.go Call) -/
+def apiModel : ApiCase → ApiOut
+  | .runThrowToStringThrows => .goPanic       -- catchPanic: caught.string() inside the deferred recover throws again
+  | .runThrowUnconvertible => .goPanic
+  | .badIsNaN => .goPanic                     -- IsNaN has no catchPanic
+  | .badToString => .errClass "RangeError"
+  | .badToInteger => .errClass "RangeError"
+  | .badToFloat => .errClass "RangeError"
+  | .badToBoolean => .text "true"
+  | .badString => .text ""
+  | .badClass => .text "Object"
+  | .callerLocationNoScript => .goPanic       -- f.runtime.scope.outer is nil
+  | .callerLocationScript => .text "<anonymous>:1:1"
+  | .setNilObject => .goPanic                 -- toValue: `case *Object: … value.object`
+  | .toValueNilObject => .goPanic
+  | .argNilObject => .goPanic
+  | .toValueNilValue => .text "undefined"
+  | .marshalFunction => .text "undefined"     -- JSON.stringify gives undefined; resultVal.String()
+  | .marshalObjectWithFunction => .text "{\"b\":1}"
+  | .marshalUndefined => .text "null"
+  | .callTwoStatements => .text "F/f7"        -- source+"()" parses to two statements; the first is a call: f(7), g never
+  | .callTwoStatementsThis => .text "G/fundefined,g7"
+  | .callExprStatement => .text "G/g7"
+
 end OttoVerif.C15
